@@ -393,6 +393,9 @@ type Request struct {
 	// DupOpts: every Option value is passed twice in the one call (an option value is
 	// immutable: applying it a second time sets the same thing).
 	DupOpts bool
+	// OptOrder: the option list is rotated by this much and, when odd, reversed (options are
+	// independent setters: the order in which they are given does not matter).
+	OptOrder int
 	// ViaFile: write Input to the file named Filename and call ParseFile on it.
 	ViaFile bool
 	// WarmStats (with Stats): the Stats value handed to the parse has already been used by an
